@@ -180,7 +180,7 @@ func runC16(c *harness.Ctx) {
 	}
 	var conn net.Conn
 	var wrOff int64
-	var wrDone, rdDone, closed bool
+	var wrDone, rdDone, closed, closeCalled bool
 	var rdGot int64
 	var rdErr, wrErr error
 	var closeReturnedAt time.Duration
@@ -227,6 +227,7 @@ func runC16(c *harness.Ctx) {
 		if closeAt >= 0 {
 			c.S.Go("c/closer", func() {
 				c.S.Sleep(time.Duration(closeAt) * time.Millisecond)
+				closeCalled = true
 				if err := conn.Close(); err != nil {
 					c.Violate("C16/close-failed", "first Close returned %v", err)
 				}
@@ -257,7 +258,9 @@ func runC16(c *harness.Ctx) {
 			c.S.Sleep(0)
 			if err != nil {
 				wrErr = err
-				if !closed {
+				// (a Write that overlaps Close may fail: only a failure before
+				// Close was even called is one on an open connection)
+				if !closeCalled {
 					c.Violate("C16/write-failed", "Write(%d) = (%d, %v) on an open connection", w.Size, n, err)
 				}
 				break
